@@ -385,7 +385,17 @@ class DataMixin:
         if isinstance(v, VListAt):
             return VInt(z3.Length(self.seq_get(v)))
         if isinstance(v, VSym):
-            return VInt(z3.Length(smt.seq_of(v.t)))
+            # a dynamically typed value: a structural tuple (up to 4 items spelled out) or a sequence-like opaque value
+            t = v.t
+            l0 = Val.vitems(t)
+            l1, l2, l3, l4 = ValList.vl_tl(l0), None, None, None
+            l2 = ValList.vl_tl(l1)
+            l3 = ValList.vl_tl(l2)
+            l4 = ValList.vl_tl(l3)
+            tl_u = z3.Function('tuple_len_beyond4', Val, smt.Int)
+            tup_len = z3.If(ValList.is_vl_nil(l0), 0, z3.If(ValList.is_vl_nil(l1), 1, z3.If(ValList.is_vl_nil(l2), 2,
+                      z3.If(ValList.is_vl_nil(l3), 3, z3.If(ValList.is_vl_nil(l4), 4, 5 + z3.If(tl_u(t) < 0, 0, tl_u(t)))))))
+            return VInt(z3.If(Val.is_v_tup(t), tup_len, z3.Length(smt.seq_of(t))))
         if isinstance(v, VRef):
             h = ex.heap[v.addr]
             if isinstance(h, HList):
